@@ -136,7 +136,7 @@ pub fn walk(sink: &mut Sink, seed: u64, run_id: u64, setup: Setup, opts: &WalkOp
                         _ => vec![],
                     };
                     Some(json!({"m":"liquid_stake","s":user,"funds":[["IBCTIA",amt as u64]],"mint_to":mint_to,
-                                "to_native":tn,"expected":expected,"ibc_fail":fail}))
+                                "to_native":tn,"expected":expected,"ibc_fail":fail,"notx":rng.gen_range(0..8) == 0}))
                 }
             }
             // ---------------------------------------------------------------- unstake
@@ -198,7 +198,7 @@ pub fn walk(sink: &mut Sink, seed: u64, run_id: u64, setup: Setup, opts: &WalkOp
                     2 => (v.cfg("channel"), "n:u1"),
                     _ => (v.cfg("channel"), "collector"),
                 };
-                Some(json!({"m":"hook","inner":"receive_rewards","channel":ch,"from":from,"amt":amt,"b":0}))
+                Some(json!({"m":"hook","inner":"receive_rewards","channel":ch,"from":from,"amt":amt,"b":0,"notx":rng.gen_range(0..8) == 0}))
             }
             // ---------------------------------------------------------------- operator returns a batch
             63..=70 => {
